@@ -250,6 +250,23 @@ fn shuffle_fair_over(len: u8, seeds: u32, what: &str, mut seed_of: impl FnMut(u6
     Ok(st)
 }
 
+/// Draws from a small range are, in real programs, interleaved with draws from other ranges: the draws a caller sees
+/// "consecutively from the small range" are then every d-th draw of the stream. Returns (d, offset, period) if the
+/// sub-sequence of every d-th draw (d = 2, 3, 4) repeats with a period <= 512.
+fn decimated_period<T: PartialEq>(s: &[T]) -> Option<(usize, usize, usize)> {
+    for d in 2..=4usize {
+        for o in 0..d {
+            let t: Vec<&T> = s.iter().skip(o).step_by(d).collect();
+            for p in 1..=512usize {
+                if (0..t.len() - p).all(|i| t[i] == t[i + p]) {
+                    return Some((d, o, p));
+                }
+            }
+        }
+    }
+    None
+}
+
 fn period(len: u16, seed: u64) -> CaseResult {
     const W: usize = 8192;
     let mut r = Rng::from_seed(seed);
@@ -261,6 +278,9 @@ fn period(len: u16, seed: u64) -> CaseResult {
                 format!("8192 consecutive draws from {} with seed {} repeat with period {} (first values {:?})", if len == 0 { "the full u8 range".to_string() } else { format!("0..{}", len) }, seed, p, &s[..12.min(W)]),
             ));
         }
+    }
+    if let Some((d, o, p)) = decimated_period(&s) {
+        return Err(Violation::new("period/every-dth-draw", format!("draws from {} with seed {}: every {}-th draw (starting at draw {}) repeats with period {} - the values a caller sees who interleaves these draws with {} other draw(s)", if len == 0 { "the full u8 range".to_string() } else { format!("0..{}", len) }, seed, d, o, p, d - 1)));
     }
     let mut st = CaseStats::default();
     st.nontrivial = true;
@@ -290,6 +310,9 @@ fn period_ty(ty: u8, len: u16, seed: u64) -> CaseResult {
         if (0..W - p).all(|i| s[i] == s[i + p]) {
             return Err(Violation::new("period", format!("8192 consecutive {} draws from a range of length {} with seed {} repeat with period {} (first values {:?})", name, len, seed, p, &s[..12])));
         }
+    }
+    if let Some((d, o, p)) = decimated_period(&s) {
+        return Err(Violation::new("period/every-dth-draw", format!("{} draws from a range of length {} with seed {}: every {}-th draw (starting at draw {}) repeats with period {}", name, len, seed, d, o, p)));
     }
     let mut st = CaseStats::default();
     st.nontrivial = true;
